@@ -126,9 +126,9 @@ def main(ctx, replay=None):
                 elif name == "fill":
                     args = ["fill", "elast.dat", "-s", "cubic"]
                 elif name in ("extract", "geotherm"):
-                    tp = sorted(n for n in os.listdir(d) if "_tp_" in n and n.endswith(".txt"))
+                    tp = sorted(n for n in os.listdir(d) if "_tp_" in n and n.endswith(".txt") and not (d / (Path(n).stem + ".png")).exists())
                     if not tp:
-                        raise MachineryError("the model enabled extract without a pressure-base table")
+                        raise MachineryError("the model enabled extract without a pressure-base table that has no picture")
                     var = tp[int(rng.integers(0, len(tp)))].split("_tp_")[0]
                     args = ["extract", "-v", var, "-T", "300"] if name == "extract" else ["extract-geotherm", "-g", "geotherm.txt", "-v", var]
                 elif name == "plot":
